@@ -123,7 +123,7 @@ def check_sf_structure(ctx):
         if isinstance(s, ast.Assign) and isinstance(s.value, ast.BinOp) and isinstance(s.value.op, ast.Div) and ffts and any(x is ffts[0] for x in ast.walk(fv.expand(s.value, s))) is False:
             pass
     # normalisation: the assignment that divides |f|^2 (temporaries resolved)
-    cand = [s for s in fv.statements() if isinstance(s, ast.Assign) and isinstance(fv.expand(s.value, s), ast.BinOp) and isinstance(fv.expand(s.value, s).op, ast.Div) and "abs" in U(fv.expand(s.value, s))
+    cand = [s for s in fv.statements() if isinstance(s, ast.Assign) and not isinstance(s.value, ast.Name) and isinstance(fv.expand(s.value, s), ast.BinOp) and isinstance(fv.expand(s.value, s).op, ast.Div) and "abs" in U(fv.expand(s.value, s))
             and "fft" in U(fv.expand(s.value, s))]
     if len(cand) == 1:
         s = cand[0]
@@ -258,21 +258,35 @@ def check_sf_structure(ctx):
                    "the first non-zero mode is 2π/L of the *last* axis), so permuting the axes together with the grid changes the result")
     # ---- PASS: requested wave numbers are returned as given
     wn = fi.params[2] if len(fi.params) > 2 else "wave_numbers"
-    asg = [s for s in fv.statements() if isinstance(s, ast.Assign) and U(s.value) in (f"np.array({wn})", f"np.asarray({wn})", f"np.asarray({wn}, dtype=float)", f"np.array({wn}, dtype=float)")]
-    rets = [n.stmt for n in fv.return_nodes() if isinstance(n.stmt.value, ast.Tuple)]
-    ok = False
-    if len(asg) == 1 and rets:
-        kname = U(asg[0].targets[0])
-        ok = U(rets[0].value.elts[0]) == kname
-        # evaluated at exactly these points
-        evs = [s for s in fv.statements() if isinstance(s, ast.Assign) and isinstance(s.value, ast.Call) and [U(a) for a in s.value.args] == [kname] and fv.dominates(asg[0], s) is not None]
-        ok = ok and any(U(s.value.func) != "np.array" and not fv.dominates(s, asg[0]) for s in evs)
-        # no later modification other than the zero-mode prepend
-        later = [s for s in fv.statements() if isinstance(s, (ast.Assign, ast.AugAssign)) and U(s.targets[0] if isinstance(s, ast.Assign) else s.target) == kname and s is not asg[0]
-                 and not fv.dominates(s, asg[0]) and not U(getattr(s, "value", s)).startswith("np.r_[0,") and "linspace" not in U(s.value) and "reduce" not in U(s.value)]
-        ok = ok and not later
+    from ..astutil import symbolic_paths
+
+    accepted = {f"np.array({wn})", f"np.asarray({wn})", f"np.asarray({wn}, dtype=float)", f"np.array({wn}, dtype=float)"}
+    asg = [s for s in fv.statements() if isinstance(s, ast.Assign) and U(s.value) in accepted]
+    rets = [n.stmt for n in fv.return_nodes() if isinstance(n.stmt.value, ast.Tuple) and len(n.stmt.value.elts) == 2]
+    n_req, bad = 0, None
+
+    def strip_zero(e, first):
+        """X of np.r_[first, X] (the prepended zero mode) or e itself"""
+        if isinstance(e, ast.Subscript) and U(e.value) == "np.r_" and isinstance(e.slice, ast.Tuple) and len(e.slice.elts) == 2 and U(e.slice.elts[0]) == first:
+            return e.slice.elts[1]
+        return e
+
+    for r in rets:
+        for _dec, (kv, sv) in symbolic_paths(fv, r, list(r.value.elts)):
+            kx, sx = strip_zero(kv, "0"), strip_zero(sv, "1")
+            if wn not in names_in(kx):
+                continue
+            if U(kx) not in accepted:
+                bad = bad or (r, f"returns `{U(kx)[:80]}` as wave numbers")
+                continue
+            # the spectrum is the smoothed function evaluated at exactly these points
+            if isinstance(sx, ast.Call) and [U(a) for a in sx.args] == [U(kx)] and not sx.keywords and U(sx.func) not in ("np.array", "np.asarray"):
+                n_req += 1
+            else:
+                bad = bad or (r, f"returns the spectrum `{U(sx)[:80]}`, which is not the smoothed function evaluated at the requested wave numbers")
+    ok = bool(rets) and n_req > 0 and bad is None
     ctx.decide(ok, "PASS", SF + ":wave_numbers", (fi, asg[0]) if asg else fi, "requested wave numbers are converted to an array and returned unchanged; the smoothed spectrum is evaluated at exactly these points",
-               "the wave numbers requested by the caller are not returned unchanged")
+               "the wave numbers requested by the caller are not returned unchanged" + (f": {bad[1]}" if bad else ""))
     # ---- ADDZERO
     from ..astutil import value_cases, truth_of
 
